@@ -88,6 +88,28 @@ def seed_edits(prop: str) -> list[dict]:
     return out
 
 
+def twin_patches(prop: str) -> list[dict]:
+    """Archived behaviour-preserving refactorings (/verif/twins/<any>-<k>/patch.diff) that touch a file this property's check reads;
+    the check must stay silent on each."""
+    import json, re
+    ev = VERIF / "evidence" / f"{prop}.json"
+    consulted = set()
+    if ev.exists():
+        try:
+            consulted = set(json.loads(ev.read_text())["coverage"]["analysed"]["files_consulted"])
+        except Exception:
+            consulted = set()
+    out = []
+    for d in sorted((VERIF / "twins").glob("*-[0-9]")):
+        pf = d / "patch.diff"
+        if not pf.exists():
+            continue
+        files = set(re.findall(r"^\+\+\+ b/(.*)$", pf.read_text(), re.M))
+        if d.name.startswith(prop + "-") or (files & consulted):
+            out.append({"id": f"twin:{d.name}", "kind": "twinpatch", "patch": str(pf)})
+    return out
+
+
 def run_seed(prop: str, edit: dict, base_src: Path) -> dict:
     td = Path(tempfile.mkdtemp(prefix=f"sa_selftest_{prop}_"))
     try:
@@ -95,11 +117,15 @@ def run_seed(prop: str, edit: dict, base_src: Path) -> dict:
         shutil.copytree(base_src, dst, ignore=shutil.ignore_patterns("__pycache__", "*.pyc", "executables"))
         a = subprocess.run(["patch", "-p1", "-s", "--no-backup-if-mismatch", "-d", str(td), "-i", edit["patch"]], capture_output=True, text=True)
         if a.returncode != 0:
-            return {"id": edit["id"], "kind": "seed", "status": "skipped", "why": "patch does not apply to the current tree"}
+            return {"id": edit["id"], "kind": "twin" if edit["kind"] == "twinpatch" else "seed", "status": "skipped", "why": "patch does not apply to the current tree"}
         env = dict(os.environ, IRISPIE_VERIF_SRC=str(dst))
         r = subprocess.run([PY, "-m", "sa.check", prop, "--tier", "quick", "--no-evidence"], cwd=str(VERIF), env=env,
                            capture_output=True, text=True, timeout=300)
         viol = [l for l in r.stdout.splitlines() if " — rule " in l]
+        if edit["kind"] == "twinpatch":
+            ok = r.returncode == 0 and not viol
+            return {"id": edit["id"], "kind": "twin", "status": "silent" if ok else "FIRED", "rc": r.returncode,
+                    "report": (viol or [l for l in r.stdout.splitlines() if "ERROR" in l] or [""])[0][:300]}
         ok = r.returncode == 1 and bool(viol)
         return {"id": edit["id"], "kind": "mutant", "status": "killed" if ok else "SURVIVED", "rc": r.returncode,
                 "report": (viol or [r.stdout.strip().splitlines()[-1] if r.stdout.strip() else ""])[0][:300]}
@@ -115,10 +141,11 @@ def run_property(prop: str, jobs: int = 16, limit: int | None = None, seed: int 
         rnd = random.Random(seed)
         edits = rnd.sample(edits, limit)
     edits += seed_edits(prop)
+    edits += twin_patches(prop)
     base = src_root()
     t0 = time.time()
     with ThreadPoolExecutor(max_workers=jobs) as ex:
-        results = list(ex.map(lambda e: run_seed(prop, e, base) if e["kind"] == "seed" else run_one(prop, e, base), edits))
+        results = list(ex.map(lambda e: run_seed(prop, e, base) if e["kind"] in ("seed", "twinpatch") else run_one(prop, e, base), edits))
     summary = {
         "property": prop,
         "mutants": sum(1 for r in results if r["kind"] == "mutant"),
